@@ -288,7 +288,8 @@ def _cmp_realized(ctx, prefix, rv, rvol, spot, dt, eps):
 # ------------------------------------------------------------------------------------ B: option classes
 def _register(deriv, specs):
     for i, s in enumerate(specs):
-        deriv.add_clause("c%d_%s" % (i, s["kind"]), O.make_clause(s))
+        # names whose alphabetical order is not the registration order (the contract is registration order)
+        deriv.add_clause("%s%d_%s" % ("mazcxbyd"[i % 8], i, s["kind"]), O.make_clause(s))
 
 
 def _check_clauses(ctx, label, deriv, specs, base_vals, spot, eps):
@@ -304,7 +305,7 @@ def _check_clauses(ctx, label, deriv, specs, base_vals, spot, eps):
     ctx.check([float(v) for v in again.tolist()] == base_vals, label + "/payoff_fn-changed",
               "payoff_fn() changed after clauses were registered")
     names = [n for n, _ in deriv.named_clauses()]
-    ctx.check(names == ["c%d_%s" % (i, s["kind"]) for i, s in enumerate(specs)], label + "/clause-names",
+    ctx.check(names == ["%s%d_%s" % ("mazcxbyd"[i % 8], i, s["kind"]) for i, s in enumerate(specs)], label + "/clause-names",
               f"named_clauses() order {names}")
     for n in range(N):
         w, err, peak = O.apply_clauses_exact(specs, Fr(base_vals[n]), spot[n], eps)
